@@ -362,6 +362,15 @@ def _boolish(t):
                               or (a[0] == "call" and a[1] in ("isinstance", "hasattr", "any", "all", "bool", "callable")))
 
 
+def _is_slice(i):
+    ia = i.single_atom() if isinstance(i, R) else None
+    if ia is None:
+        return False
+    if ia[0] == "slice":
+        return True
+    return ia[0] == "tuple" and any(_is_slice(x) for x in ia[1])
+
+
 def mk_cmp(op, a, b):
     """a op b  ->  ('cmp', op', a-b) with op' in > >= == != (or folded)."""
     # distribute over a gated phi when the other side is a constant
@@ -407,6 +416,9 @@ def mk_cmp(op, a, b):
     if op in ("==", "!="):
         for x, y in ((a, b), (b, a)):
             ax = x.single_atom()
+            if y == NONE and ax is not None and ax[0] == "sub" and _is_slice(ax[2]):
+                # a slice of anything that can be sliced is a container, never None
+                return const(op == "!=")
             if y == NONE and ax is not None and ax[0] == "call" and (ax[1].startswith(("numpy.", "scipy.", "pandas.")) or ax[1] in _NONNULL_CALLS):
                 return const(op == "!=")
     d = a - b
